@@ -200,6 +200,8 @@ func C17(tier rt.Tier) int {
 		wg.Add(1)
 		go func() {
 			defer wg.Done()
+			slot := rt.NewSlot()
+			defer rt.SlotClear(slot)
 			for keys := range work {
 				content := map[string][]byte{}
 				mdl := map[string]string{}
@@ -229,6 +231,10 @@ func C17(tier rt.Tier) int {
 							atomic.AddInt64(&cases, 1)
 							desc := fmt.Sprintf("content %q, removed nodes %s, trie version %d (nodes created at %d), donor order %v", keys, nodeNames(remList), tver, origin, order)
 							replay := map[string]any{"content": keys, "removed_mask": mask, "trie_version": tver, "order": order}
+							if rp := rt.Replay; rp != nil && rp.Raw["content"] != nil && fmt.Sprint(rp.Raw["content"], rp.Raw["removed_mask"], rp.Raw["trie_version"], rp.Raw["order"]) != fmt.Sprint(keys, mask, tver, order) {
+								continue // replay of one recorded case
+							}
+							rt.SlotSetJSON(slot, replay) // in-flight note for the supervisor (a damaged store can send a walk into unbounded recursion)
 							func() {
 								defer func() {
 									if r := recover(); r != nil {
@@ -456,7 +462,9 @@ func C17(tier rt.Tier) int {
 								// lower level still holds them): the repair must still find them
 								if len(remList) > 0 && order[0] == 0 && sort.IntsAreSorted(order) {
 									lower := util.NewMemoryNodeDB()
-									_ = db.Iterate(context.Background(), func(ctx context.Context, key util.Key, node util.Node) error { return lower.PutNode(key, node.CloneNode()) })
+									_ = db.Iterate(context.Background(), func(ctx context.Context, key util.Key, node util.Node) error {
+										return lower.PutNode(key, node.CloneNode())
+									})
 									for i := range donor.keys {
 										_ = lower.PutNode(donor.keys[i], donor.nodes[i].CloneNode())
 									}
